@@ -164,12 +164,29 @@ class Ranges:
         facts = {}
         for (src, vals, dst) in dominating_edges(self.B, bb):
             for c, lo, hi in self._edge_facts(src, vals, dst):
+                if not self._stable_after(c, dst):
+                    continue
                 if c in facts:
                     facts[c] = (max(facts[c][0], lo), min(facts[c][1], hi))
                 else:
                     facts[c] = (lo, hi)
         self._facts[bb] = facts
         return facts
+
+    def _stable_after(self, c, dst):
+        """A fact about a re-assignable local only holds while the local is not re-assigned:
+        reject when a definition of it is reachable from the guarded edge's target."""
+        locs = set()
+        _collect_locals(c, locs)
+        if not locs:
+            return True
+        reach = self.B.reachable(dst)
+        for l in locs:
+            for d in self.B.defs().get(l, []):
+                if d[1] in reach:
+                    # definition inside the guarded region (loop-carried or later assignment)
+                    return False
+        return True
 
     def _edge_facts(self, src, vals, dst):
         B = self.B
@@ -402,6 +419,15 @@ class Ranges:
                 if _contains(canon(B, a), c):
                     return True
         return False
+
+
+def _collect_locals(tree, out):
+    if isinstance(tree, tuple):
+        if len(tree) >= 2 and tree[0] == 'local' and isinstance(tree[1], int):
+            out.add(tree[1])
+        for x in tree:
+            if isinstance(x, tuple):
+                _collect_locals(x, out)
 
 
 def _contains(tree, c):
